@@ -327,6 +327,10 @@ LEAFBLOCKS2 = (" Verif.Props.LeafBlocks2 (faithful models of the HTML-block star
                "source = model = CommonMark 0.29 re-checked every run): ")
 SCANRULES2 = (" Verif.Props.ScanRules2 (faithful models of MD011 MD013 MD014 MD018 MD020 MD028 MD032 MD033 MD034 incl. the next_line side of MD011 / MD013; 1.14 M comparisons "
               "thorough through a real PluginManager, 411 of 411 lines of the modelled methods reached, four regular expressions checked against CPython's re by tables): ")
+TOKENRULES2 = (" Verif.Props.TokenRules2 (264 theorems; faithful models of MD023, MD030 scan + fix, MD037 incl. __process_fixes' running offset, MD044, MD046 over the extended token, "
+               "replacement records, pragma re-keying, the joint passes md029+md030 / md023+md030; 4.8 M comparisons thorough against the real rule classes): ")
+LISTRULES = (" Verif.Props.ListRules (faithful models of ContainerTokenManager, MD007 and MD006, scan + fix; 2.4 M comparisons thorough, every executable line of the three modules hit; "
+             "MD005 is not modelled): ")
 EXTRA2 = {
  "C03": [LEAFBLOCKS2 + "html_end_spec (kinds 2-5, iff), html_end_spec_blank, html_end_spec_partial + html_end_excluded (</PRE>), type7_no_interrupt, fence_content_spec_partial, icode_content_spec, icode_not_eligible; html_start_spec is stated and FALSE as an equality (witnesses: <-> , <1 a>, <a B>, <a 1>, KELVIN <linK>) — totality, locality and no-interrupt are the proved parts, the tie compares with the specification on the whole space and reports the difference classes.",
          LISTSTARTS + "list_start_spec (accepts exactly the CommonMark marker sentence; marker_sentence_is_leanmark ties the sentence to LeanMark's listMarker?), "
@@ -340,7 +344,10 @@ EXTRA2 = {
          INLINELOOP + "inline_loop_terminates (turns <= number of inline start characters; fuel always sufficient), inline_loop_total (under the guard envOK and the contract the only "
          "errors are a handler's own; six excluded-point witnesses, one per contract clause, each replayed on the real loop with a stub registered in the real handler table). Tie: real loop "
          "vs model on all strings <= 5 over the inline alphabet x 9 environments (1.69 M cases thorough) and every one of 5.2 M recorded loop turns of real parses is a legal model transition."],
- "C08": [REGENLEAF + "regen_field_local (changing one style field of one leaf token — ATX hash count, fence character, thematic break text … — changes only that token's own "
+ "C08": [TOKENRULES2 + "mdX_fix_only_style for the five (which fields of which token kinds may change and by how much; MD037: only spaces adjacent to a marker are removed, "
+         "MD044: only letter case inside a matched name, lengths preserved) with PROVED counter-examples where the real fix destroys text: MD037 'a * * b' -> 'a * b', nested pairs delete a "
+         "letter; MD044 with a dotted capital I shifts every later index; MD023 deletes a leading &copy; from a SetExt heading line; MD046's pragma line delta uses end_token.line_number (0).",
+         REGENLEAF + "regen_field_local (changing one style field of one leaf token — ATX hash count, fence character, thematic break text … — changes only that token's own "
          "contribution to the regenerated text; regen_field_local_excluded shows the one field shape where it does not): the token-level statements mdX_fix_only_style transfer to text "
          "for container-free documents."],
  "C02": [LEAFBLOCKS2 + "fence_content_roundtrip_partial, icode_roundtrip (stored white space + text = the source line, through C02's resolve_encode / remove_encode; general for tab-free lines, TAB cases are #guard tests + tie).",
@@ -355,17 +362,20 @@ EXTRA2 = {
          "position), with the full statement PROVED FALSE for the code by positions_excluded_multiline / positions_excluded_setext — the root causes of the known family F-C05-INLINECOL "
          "(an element spanning a line break does not advance the paragraph's per-line indentation index; setext heading after a hard break counts the indentation twice; the code-span "
          "column delta ignores the paragraph's leading white space)."],
- "C06": [SCANRULES2 + "mdX_scan_iff for MD013 and MD011 (under the guard that leaf / blank-line tokens start on increasing lines: the governing token of a line is the last such token starting at or before it), MD014 MD034 MD028 (every stream), MD033 (when the assert cannot fail); MD018 MD020 MD032: model + tie + excluded points (md032_stack_leak).",
+ "C06": [TOKENRULES2 + "mdX_scan_iff and mdX_faithful_eq_spec (or _partial + proved witness, each run on the real rule) for MD023 MD030 MD037 MD044 MD046.",
+         SCANRULES2 + "mdX_scan_iff for MD013 and MD011 (under the guard that leaf / blank-line tokens start on increasing lines: the governing token of a line is the last such token starting at or before it), MD014 MD034 MD028 (every stream), MD033 (when the assert cannot fail); MD018 MD020 MD032: model + tie + excluded points (md032_stack_leak).",
          SCANRULES + "mdX_scan_iff (reports <=> a sentence-shaped condition over the stream; unconditional for MD003 MD022 MD025 MD040 MD042 MD045, under a guard every parsed stream "
          "satisfies for MD024 MD026 MD036 MD041, 8 excluded-point witnesses), mdX_faithful_eq_spec against Verif.Model.RuleSpec (full: MD003 MD024 MD025 MD040; _partial with proved "
          "witnesses md045_differs (U+000B), md042_differs (U+00A0), md041_h1_differs (<H1>), md024_text_differs, md022_count_unknown_after_list)."],
- "C07": [SCANRULES2 + "mdX_reports_in_range for MD013 MD011 MD014 MD033 MD034 (adjust034_bounds), mdX_total for MD014 MD028 MD034 (every file) and MD013 MD011 MD033 (under their guards); excluded points that are real crashes: md033_excluded (<h1 </h1>), md011_excluded / md013_excluded (a one-line pragma document: empty leaf-token list).",
+ "C07": [LISTRULES + "md007_total_partial (no exception on streams satisfying an explicit invariant: balanced containers + a line budget for the enclosing block quotes; proof by refining the dict bookkeeping to a frame stack), md007_total_excluded_known_crash (the known IndexError stream violates the invariant and the model raises as the real rule does) + five more excluded witnesses, md006_total, md007_reports_in_range, md006_reports_in_range; the invariant holds on 110 976 of 111 004 parsed streams, the 28 others are the 7 known-crash documents x 4 configurations.",
+         SCANRULES2 + "mdX_reports_in_range for MD013 MD011 MD014 MD033 MD034 (adjust034_bounds), mdX_total for MD014 MD028 MD034 (every file) and MD013 MD011 MD033 (under their guards); excluded points that are real crashes: md033_excluded (<h1 </h1>), md011_excluded / md013_excluded (a one-line pragma document: empty leaf-token list).",
          SCANRULES + "mdX_reports_in_range for all ten (every report's (line, column) is the position, or for a SetExt heading the original position, of a token of the stream of the named "
          "kind; md026_delta_bounds for MD026's computed deltas)."],
  "C12": [SCANRULES2 + "mdX_scan_reads for MD011 MD013 MD014 MD028 MD032 MD033 MD034.",
          SCANRULES + "allTen_projection (in the joint pass each rule's share of the report list is exactly what it reports alone, same order), mdX_scan_reads (the verdict depends only on the "
          "named token kinds / fields)."],
- "C13": [SCANRULES2 + "mdX_state_reset (file B after file A = B alone, all A, B) for MD011 MD013 MD014 MD028 MD032 MD033 MD034; md018_stale_delayed_line (MD018 / MD020 reset 4 of 7 parser fields: a stale delayed line is reported into the previous file's context); 43 k two-file comparisons against fresh rule objects.",
+ "C13": [LISTRULES + "md007_state_reset_partial (for EVERY leftover state of the plug-in object, incl. a file abandoned in the middle of the token pass), md007_state_reset_excluded, ctm_clear_eq_fresh_iff (ContainerTokenManager.clear() does not reset list_adjust_map: after clear() the manager equals a fresh one iff the map was empty — reports on well-formed streams proved unaffected), md006_state_reset.",
+         SCANRULES2 + "mdX_state_reset (file B after file A = B alone, all A, B) for MD011 MD013 MD014 MD028 MD032 MD033 MD034; md018_stale_delayed_line (MD018 / MD020 reset 4 of 7 parser fields: a stale delayed line is reported into the previous file's context); 43 k two-file comparisons against fresh rule objects.",
          SCANRULES + "mdX_state_reset: scanAfter rule cfg A B = scan rule cfg B for ALL streams A, B (nine rules assign every field in starting_new_file; MD022 leaves "
          "__start_heading_blank_line_count unassigned: proved harmless, with an example that the start states really differ); 71 k two-file sequences on one PluginManager vs fresh objects."],
 }
